@@ -11,20 +11,32 @@
 (* and every first-visit transition.                                         *)
 EXTENDS MCMacCmd, Json
 
+CONSTANT SecondSmall
 VARIABLE hist
 gvars == <<m, nDown, owed, lastReqs, lastSts, pre, hist>>
 
 GInit == Init /\ hist = <<>>
+\* With SecondSmall the downlinks after the first are limited to a repetition of the previous one (what a network
+\* does until it has seen the answers) and a few requests of each kind: all first downlinks x these, instead of
+\* all x all (1.4 M generated successors at MaxDown 2).
+SmallSet ==
+    {[kind |-> "adr", cmds |-> <<AdrCmd(5, 14, 0, <<7, 0>>)>>], [kind |-> "adr", cmds |-> <<AdrCmd(15, 15, 6, <<0, 0>>)>>],
+     [kind |-> "rxparam", off |-> 5, dr |-> 0, freq |-> InBand], [kind |-> "timing", del |-> 5], [kind |-> "devstatus"]}
+    \cup (IF Fixed THEN {} ELSE
+          {[kind |-> "newch", idx |-> 3, freq |-> InBand, dmin |-> 0, dmax |-> 5], [kind |-> "newch", idx |-> 3, freq |-> 0, dmin |-> 0, dmax |-> 5],
+           [kind |-> "dlch", idx |-> 0, freq |-> InBand + 200000]})
+May(reqs) == ~SecondSmall \/ nDown = 0 \/ reqs = lastReqs \/ (Len(reqs) = 1 /\ reqs[1] \in SmallSet)
 GNext ==
-    \/ \E a \in Alphabet : Downlink(<<a>>) /\ hist' = Append(hist, [t |-> "down", reqs |-> <<a>>])
+    \/ \E a \in Alphabet : May(<<a>>) /\ Downlink(<<a>>) /\ hist' = Append(hist, [t |-> "down", reqs |-> <<a>>])
     \/ \E a \in PairAdr, b \in OtherAlphabet :
-          \/ Downlink(<<a, b>>) /\ hist' = Append(hist, [t |-> "down", reqs |-> <<a, b>>])
-          \/ Downlink(<<b, a>>) /\ hist' = Append(hist, [t |-> "down", reqs |-> <<b, a>>])
+          \/ May(<<a, b>>) /\ Downlink(<<a, b>>) /\ hist' = Append(hist, [t |-> "down", reqs |-> <<a, b>>])
+          \/ May(<<b, a>>) /\ Downlink(<<b, a>>) /\ hist' = Append(hist, [t |-> "down", reqs |-> <<b, a>>])
     \/ Uplink /\ hist' = Append(hist, [t |-> "up", reqs |-> <<>>])
 GSpec == GInit /\ [][GNext]_gvars
 
 GView == <<m, nDown, owed, lastReqs, lastSts, pre>>
 
-\* one line per distinct state: the behaviour that reached it
+\* one line per generated successor: the behaviour that reached it (TLC evaluates an invariant on every generated
+\* successor before the VIEW decides whether it is new; the runner drops duplicates and proper prefixes)
 Emit == PrintT(<<"REPLAY", ToJson(hist)>>)
 =============================================================================
